@@ -92,6 +92,14 @@ def check(rep, tier, seed):
             rep.fail(kind="property-oracle", cls="reads-what-it-writes:library", case=c[:200], stdin_hex=c.split()[1][:4000], observed=o[:100],
                      expected="OK <shape> <values>", detail="a file written by the tool is rejected by the tool's auto-detecting reader")
 
+    # what the tool wrote, handed back to view / fold / stat in every form an input can take (stdin, path, /dev/stdin, a
+    # named pipe; output on stdout or -o): the same bytes must come out
+    from common import invocation_variants
+    small = [bytes.fromhex(o) for o in produced if len(o) < 6000]
+    vj = []
+    for b in rng.sample(small, min(len(small), 6 if tier == "quick" else 40)):
+        vj += [(["view", "--precision", "4"], b), (["view", "-O", "npy"], b), (["fold", "-p", "3"], b), (["stat", "-s", "sum"], b)]
+    invocation_variants(rep, "reads-what-it-writes:invocation-form", vj, rng, n=10 if tier == "quick" else 80)
     # stand-ins for std formatting / parsing vs Rust
     n = 20000 if tier == "quick" else 200000
     fcases, pcases = [], []
